@@ -270,6 +270,31 @@ pub fn worker(w: &mut Worker) {
         }
     }
 
+    // the empty environment: no variable at all is defined (binding is not the identity then either)
+    for t in &templates {
+        for pos in 0..3u8 {
+            if !w.take() {
+                continue;
+            }
+            let env: HashMap<String, String> = HashMap::new();
+            let (args, exp) = build(t, pos, &env);
+            let cj = json!({"written": args, "v": Value::Null, "w": Value::Null, "via": "run_instruction", "empty_environment": true});
+            w.begin(|| cj.clone());
+            let got = rig.bind(&args, &env);
+            w.add_transitions(1);
+            match (&got, &exp) {
+                (Err(e), _) => w.fail(if e.starts_with("panic") { "panic" } else { "bind-error" }, &format!("{:?}: {}", args, e), cj),
+                (Ok(g), Some(x)) if g == x => w.pass(true, hash64(&("empty-env", g.len(), pos))),
+                (Ok(g), Some(x)) => w.fail(
+                    &format!("empty-environment:{}", classify(t, None, g, x)),
+                    &format!("written {:?} with no variable defined: received {:?}, expected {:?}", args, g, x),
+                    cj,
+                ),
+                (Ok(_), None) => w.pass(false, 0),
+            }
+        }
+    }
+
     // sub-family through the parser: the same templates written as script text
     let small: Vec<Option<String>> = {
         let mut v: Vec<Option<String>> = vec![None];
@@ -348,6 +373,9 @@ pub fn replay(case: &Value) -> Result<String, String> {
     }
     env.insert("a.b".into(), "dot".into());
     env.insert("s::é1".into(), "sc é".into());
+    if case["empty_environment"].as_bool().unwrap_or(false) {
+        env.clear();
+    }
     let mut rig = Rig::new();
     let got = if case["via"] == "run_script" {
         rig.via_parser(&args, &env, case["quote_optional"].as_bool().unwrap_or(false))
@@ -361,7 +389,7 @@ pub fn crash_sig(_case: &Value, kind: &str) -> String {
     kind.to_string()
 }
 
-pub const RULE: &str = "every template of 1..3 pieces from {a, 'b c', e-acute, ${v}, ${w}, ${u} (undefined), ${a.b}, ${s::e1} (name with '::', a digit and a non-ASCII letter), \\${v}} and the whole-argument forms %{v} %{w} %{u}, in three argument positions (alone, first of two, last of three after a spread), x every value of v (undefined, every string up to the length bound over {a SP \" \\ # $ { } % LF = e-acute TAB CR NBSP}, 9 special values such as '${w}' and '  ') x 8 values of w (only where the argument list mentions them); bound by runner::run_instruction and observed by a capture command; a second family writes the same templates as script text (plain and quoted) and runs them through run_script. Oracle: one-pass reference substitution; spread = space-separated non-empty words. Non-trivial: the argument list mentions v or w. states = distinct (received count, position, kind) classes; transitions = real bindings";
+pub const RULE: &str = "every template of 1..3 pieces from {a, 'b c', e-acute, ${v}, ${w}, ${u} (undefined), ${a.b}, ${s::e1} (name with '::', a digit and a non-ASCII letter), \\${v}} and the whole-argument forms %{v} %{w} %{u}, in three argument positions (alone, first of two, last of three after a spread), x every value of v (undefined, every string up to the length bound over {a SP \" \\ # $ { } % LF = e-acute TAB CR NBSP}, 9 special values such as '${w}' and '  ') x 8 values of w (only where the argument list mentions them); bound by runner::run_instruction and observed by a capture command; every template also under the empty environment (no variable defined at all); a second family writes the same templates as script text (plain and quoted) and runs them through run_script. Oracle: one-pass reference substitution; spread = space-separated non-empty words. Non-trivial: the argument list mentions v or w. states = distinct (received count, position, kind) classes; transitions = real bindings";
 pub const ASSUMPTIONS: &[&str] = &["spread values containing a double quote or '#' are only checked for 'no panic' (their grouping is pinned by the repository's own tests, not by the statement)", "arguments that mix text with %{..} are outside the property's template domain"];
 pub const EXHAUSTIVE: bool = true;
 pub const WALL_CAP_S: (u64, u64) = (50, 1500);
